@@ -35,6 +35,8 @@ DataStmts ==
      {St(EAsg(n, ERec(<<RStatic(<<12>>, N1), RStatic(<<13>>, EList(<<N1>>))>>)), "") : n \in Vars}      \* n = {a: 1, b: [1]}
   \cup {St(EAsg(n, ELit(v)), "") : n \in Vars, v \in {SA, Bool(TRUE), Null}}
   \cup {St(EAsg(n, EList(<<ENum(2)>>)), "") : n \in Vars}
+  \cup {St(EAsg(n, EBin("add", EId(m), EId(m))), "") : n \in Vars, m \in Vars}                             \* n = m + m: a new value, m stays
+  \cup {St(EAsg(n, EList(<<EAsg(m, EList(<<ENum(2), N1>>)), EId("zz")>>)), "") : n \in Vars, m \in Vars}   \* n = [(m = [2, 1]), zz] fails; m stays bound to its list
   \cup {St(EAsg(n, EList(<<ENum(2), N1>>)), "") : n \in Vars}                                               \* n = [2, 1]
   \cup {St(EAsg(n, ECall(EId("sort"), <<EId(m)>>)), "") : n \in Vars, m \in Vars}                          \* n = sort(m): m stays as it was
   \cup {St(ECall(EId("sort_by"), <<EId(m), ELam(<<Req("x")>>, EId("x"))>>), "") : m \in Vars}
